@@ -2223,7 +2223,7 @@ func (w *c16World) offerDefects() int {
 			}
 		})
 	}
-	if !w.dirty && os.Getenv("C16_NOFAM") == "" {
+	if !w.dirty {
 		// the generated families (zz_verif_c16_families_test.go): their shallow-state subsets in the states of depth <= 2
 		// (thorough: <= 3), their per-state representatives in every deeper state; the full products are the grid part
 		n += w.offerFamilies(len(w.hist) > 2 && !(w.e.r.Thorough() && len(w.hist) <= 3))
